@@ -27,7 +27,7 @@ ASSUMPTIONS = ["exact part assumes randomness enters through one random.shuffle 
                "if that pattern is not observed the exact part is skipped for that case and the statistical part decides",
                "chi-square two-stage protocol (p>=1e-4 held; escalate 4x; p<1e-6 violated) + support check"]
 HEADLINE = ["exact_cases", "exact_generations", "exact_outcomes", "exact_hook_pattern_missing", "stat_cases", "stat_generations", "chi2_tests",
-            "chi2_escalations", "two_column_cases", "network_stat_cases", "custom_cases", "nondivisible_cases", "nondivisible_rejected_by_generator", "entropy_cases", "entropy_generations", "reseed_calls_observed"]
+            "chi2_escalations", "two_column_cases", "network_stat_cases", "custom_cases", "nondivisible_cases", "nondivisible_rejected_by_generator", "entropy_cases", "entropy_generations", "reseed_calls_observed", "stat_cases_with_a_callback_that_reseeds_the_random_source"]
 REQUIRED = {"quick": {"exact_generations": 5000, "stat_generations": 20000, "two_column_cases": 5, "exact_or_stat_cases": 30, "entropy_cases": 6},
             "thorough": {"exact_generations": 100000, "stat_generations": 200000, "two_column_cases": 20, "exact_or_stat_cases": 300, "entropy_cases": 60}}
 MAX_INCONCLUSIVE_FRACTION = 0.0
@@ -48,13 +48,19 @@ def gen_cases(tier, seed):
         cases.append({"mode": "stat", "seed": seed * 100151 + i, "R": 4000 if tier == "quick" else 20000, "_cost": 5})
     for i in range(9 if tier == "quick" else 90):
         cases.append({"mode": "entropy", "seed": seed * 100153 + i, "_cost": 1})
+    # two-topology fast / network generators whose first build callback re-seeds the random source (hostile callback)
+    for i in range(8 if tier == "quick" else 60):
+        cases.append({"mode": "stat", "seed": seed * 100169 + 2 * i, "R": 4000 if tier == "quick" else 20000, "_cost": 5, "hostile_fast": True})
     return cases
 
 
-def make_small(rng, limit):
+def make_small(rng, limit, force_fast_two=False):
     """a configuration + jds with prod(n_c!) <= limit"""
     for _ in range(1000):
-        if rng.random() < 0.35:
+        if force_fast_two:
+            motifs = [rng.choice(SMALL_FAST) for _ in range(2)]
+            cfg = {"flavour": "fast", "motifs": [list(m) for m in motifs], "names": ["t0", "t1"], "path": "direct", "use_library": True}
+        elif rng.random() < 0.35:
             M = rng.choice([1, 1, 2])
             motifs = [rng.choice(SMALL_CUSTOM) for _ in range(M)]
             sizes, indices = [], []
@@ -142,8 +148,15 @@ def observed_outcome(cfg, rec):
     return tuple(out)
 
 
-def run_once(cfg, jds, tap):
+def run_once(cfg, jds, tap, hostile=False):
     rec = gen.Recorder()
+    if hostile:
+        # a build callback that uses - and re-seeds - the very random source the generator draws from (a nested simulation inside
+        # the callback does that): the placements of ALL topologies must still follow the law
+        def _reseed(k):
+            tap.rng.random()
+            tap.rng.seed(424242 + k)
+        rec.on_build = _reseed
     alg, cls = gen.build_algorithm(cfg, rec)
     with installed(tap, "fast", "custom"):
         out = sut(f"{cls.__name__}.random_clustered_graph", alg.random_clustered_graph, copy.deepcopy(jds))
@@ -212,7 +225,7 @@ def run_case(case):
     if case["mode"] == "exact":
         cfg, jds, n_c = make_small(rng, case["limit"])
     else:
-        cfg, jds, n_c = make_small(rng, 5040)
+        cfg, jds, n_c = make_small(rng, 5040, force_fast_two=bool(case.get("hostile_fast")))
         if rng.random() < 0.3 and cfg["flavour"] == "fast":
             cfg["flavour"] = "network"
     if cfg.get("nondivisible"):
@@ -274,11 +287,17 @@ def run_case(case):
                 e2[frozenset(p for motif in k for inst in motif for p in inst[1])] += p
             expected = dict(e2)
 
+        hostile = len(n_c) >= 2 and case["seed"] % 2 == 0
+        if hostile:
+            res.count("stat_cases_with_a_callback_that_reseeds_the_random_source")
+
         def draw(n, stage):
             tap = RandomTap(seed=case["seed"] * 13 + stage, keep_log=False)
             c = Counter()
-            for _ in range(n):
-                rec, out = run_once(cfg, jds, tap)
+            for it in range(n):
+                if hostile:
+                    tap.rng.seed(case["seed"] * 1000003 + stage * 7919 + it)      # the callbacks leave the source in a fixed state: start each draw afresh
+                rec, out = run_once(cfg, jds, tap, hostile=hostile)
                 if network:
                     c[frozenset(gen.upair(e) for e in out.G.edges())] += 1
                 else:
